@@ -281,6 +281,44 @@ func init() {
 					})
 				}
 			}
+			// equal getters and the todo flag: a placeholder emits no methods, an explicit "todo: false" changes nothing
+			for _, tv := range []struct {
+				id     string
+				todo   *bool
+				reject bool
+			}{{"second-todo-false", P(false), true}, {"second-todo-true", P(true), false}, {"second-todo-unset", nil, true}} {
+				for mf := 0; mf < 2; mf++ {
+					tv, mf := tv, mf
+					w.Case(fmt.Sprintf("collision/equal-getters/%s/files=%d", tv.id, mf+1), func(c *C) {
+						one := Service{Name: "one", Constructor: P("pk.New"), Getter: P("FetchIt")}
+						two := Service{Name: "two", Constructor: P("pk.New"), Getter: P("FetchIt"), Todo: tv.todo}
+						files := []File{{"c.yaml", (&Cfg{Meta: stdMeta(), Services: []Service{one, two}}).YAML()}}
+						if mf == 1 {
+							// the second service starts as a placeholder in the first file and is completed in the second
+							base := &Cfg{Meta: stdMeta(), Services: []Service{one, {Name: "two", Todo: P(true)}}}
+							over := &Cfg{Services: []Service{two}}
+							files = []File{{"a.yaml", base.YAML()}, {"b.yaml", over.YAML()}}
+							if tv.todo == nil {
+								return // the merged flag would stay true
+							}
+						}
+						br := w.Build(files)
+						c.Distinct("all", c.ID)
+						c.Distinct("nontrivial", c.ID)
+						c.Count("collision_rows")
+						if br.Panic != "" {
+							c.Violation("panic", "tool panicked:\n"+br.Panic, FilesMap(files), nil)
+							return
+						}
+						if tv.reject && br.Exit == 0 {
+							c.Violation("collision-accepted:equal-getters:"+tv.id, "two non-placeholder services share the getter FetchIt and the configuration was accepted", FilesMap(files), nil)
+						}
+						if !tv.reject && br.Exit != 0 {
+							c.Violation("placeholder-getter-rejected", "a placeholder (todo: true) emits no getter, yet the configuration was rejected:\n"+strings.Join(ErrorLines(br.Out), "\n"), FilesMap(files), nil)
+						}
+					})
+				}
+			}
 			// executed subset
 			var cases []*BCase
 			dyn := []struct {
